@@ -85,6 +85,42 @@ theorem wrapping_empty_unchecked (m : Matrix α) (h : m.Coh) (h0 : m.data.size =
   obtain ⟨msg, hmsg⟩ := Bridge.from_wrapping_index_zero i m.order m.shape hz
   exact ⟨msg, by simp [WrappingIndex.resolveUnchecked, WrappingIndex.resolveUncheckedH, Matrix.hdr, hmsg, bind, Except.bind]⟩
 
+/-! ### laws of wrapping that follow (every integer, hence every `isize`) -/
+
+/-- Wrapping is periodic in the axis length: adding any integer multiple of `n` to the index
+addresses the same position. -/
+theorem wrap_periodic (x k : Int) (n : Nat) : wrap (x + k * (n : Int)) n = wrap x n := by
+  unfold wrap; rw [Int.add_mul_emod_self_right]
+
+/-- An index that is already in range is left alone: wrapping extends checked indexing. -/
+theorem wrap_of_lt (x n : Nat) (h : x < n) : wrap (x : Int) n = x := by
+  unfold wrap
+  rw [Int.emod_eq_of_lt (by omega) (by omega)]; simp
+
+/-- `-1` addresses the last position of a non-empty axis (the idiom the documentation shows). -/
+theorem wrap_neg_one (n : Nat) (hn : 0 < n) : wrap (-1) n = n - 1 := by
+  have h := wrap_periodic (-1) 1 n
+  have h2 : (-1 : Int) + 1 * (n : Int) = ((n - 1 : Nat) : Int) := by omega
+  rw [h2, wrap_of_lt (n - 1) n (by omega)] at h
+  exact h.symm
+
+/-- Two wrapping indices that differ by whole multiples of the logical shape resolve to the same
+element position of a non-empty matrix, for any integers `k`, `l`. -/
+theorem wrapping_get_periodic (m : Matrix α) (h : m.Coh) (hfit : m.data.size ≤ usizeMax)
+    (hne : m.data.size ≠ 0) (i : WrappingIndex) (k l : Int) :
+    (WrappingIndex.mk (i.row + k * (m.nrows : Int)) (i.col + l * (m.ncols : Int))).resolve m
+      = i.resolve m := by
+  rw [(wrapping_get m h hfit hne i).1, (wrapping_get m h hfit hne _).1]
+  simp only [wrap_periodic]
+
+/-- A wrapping index whose components are already in range resolves to the same position as the
+checked index `(r, c)`: the storage offset `m.idx r c`. -/
+theorem wrapping_get_in_range (m : Matrix α) (h : m.Coh) (hfit : m.data.size ≤ usizeMax)
+    (hne : m.data.size ≠ 0) (r c : Nat) (hr : r < m.nrows) (hc : c < m.ncols) :
+    (WrappingIndex.mk (r : Int) (c : Int)).resolve m = .ok (.ok (m.idx r c)) := by
+  rw [(wrapping_get m h hfit hne _).1]
+  simp only [wrap_of_lt r _ hr, wrap_of_lt c _ hc]
+
 /-! ### non-vacuity -/
 
 def ex23 : Matrix Nat := ⟨.colMajor, ⟨3, 2⟩, #[1, 4, 2, 5, 3, 6]⟩   -- logical 2×3, column-major
@@ -93,5 +129,6 @@ example : ex23.Coh ∧ ex23.data.size ≤ usizeMax ∧ ex23.data.size ≠ 0 :=
 example : (WrappingIndex.mk (-1) (-4)).resolve ex23 = .ok (.ok 5) := by rfl   -- (1, 2)
 example : (WrappingIndex.mk (-(2 ^ 63)) (2 ^ 63 - 1)).resolve ex23 = .ok (.ok 2) := by rfl -- (0, 1)
 example : wrap (-(2 ^ 63)) 2 = 0 ∧ wrap (2 ^ 63 - 1) 3 = 1 := by decide
+example : (WrappingIndex.mk (-1 + 7 * 2) (-4 + (-5) * 3)).resolve ex23 = (WrappingIndex.mk (-1) (-4)).resolve ex23 := by rfl
 
 end Matreex.C13
